@@ -64,7 +64,7 @@ VARIABLES
     nst, stims
 
 vars == <<mgr, str, wr, thr, net, rbuf, tp, rpc, nrpc, sctx, connmu, wire, wmark, hmeta, nst, stims>>
-view == <<mgr, str, wr, thr, net, rbuf, tp, rpc, nrpc, sctx, connmu, wire, hmeta>>
+view == <<mgr, str, wr, thr, net, rbuf, tp, rpc, nrpc, sctx, connmu, wire, hmeta, nst>>
 
 (* ------------------------------ records ---------------------------------- *)
 NoPkt == [full |-> FALSE, sid |-> 0, mid |-> 0, kind |-> NONE, tag |-> NONE, ctl |-> FALSE]
@@ -277,7 +277,7 @@ NcsStep(t) ==
        [] th.opc = "ncs.set" ->      \* m.sbuf.Set(stream)
             /\ mgr' = IF m.sbufClosed THEN mgr ELSE [mgr EXCEPT ![e].sbuf = th.sid]
             /\ hmeta' = IF e = "srv" THEN [hmeta EXCEPT ![th.sid] = IF th.msid = th.sid THEN th.mval ELSE NONE] ELSE hmeta
-            /\ SetT(t, [th EXCEPT !.opc = th.cont.created]) /\ UNCHANGED <<str, wr>>
+            /\ SetT(t, [th EXCEPT !.opc = th.cont.created, !.waitid = IF e = "srv" THEN th.sid ELSE th.waitid]) /\ UNCHANGED <<str, wr>>
        [] OTHER -> FALSE
   /\ UNCHANGED <<net, rbuf, tp, rpc, nrpc, sctx, connmu, wire, wmark, nst, stims>>
 
@@ -553,7 +553,9 @@ Obs == [app |-> [t \in AppThreads |-> AppObs(t)],
         closed |-> mgr["cli"].term # U,
         tclose |-> [e \in Eps |-> tp[e].closed],
         neww |-> [e \in Eps |-> [i \in 1..(Len(wire[e]) - wmark[e]) |-> [j \in 1..Len(wire[e][wmark[e] + i]) |-> FrameStr(wire[e][wmark[e] + i][j])]]],
-        hmeta |-> hmeta]
+        hmeta |-> hmeta,
+        hctx |-> (thr[SvT].waitid # 0 /\ FinS("srv", thr[SvT].waitid)),     \* the context of the stream the handler was last given is done
+        unb |-> (mgr["cli"].sbuf = 0 \/ FinS("cli", mgr["cli"].sbuf))]       \* Conn.Unblocked()
 
 (* ------------------------------- properties ------------------------------------ *)
 TypeOK == /\ \A e \in Eps : mgr[e].sem \in {0, 1} /\ mgr[e].sfin \in {0, 1} /\ mgr[e].pdone \in {0, 1}
